@@ -3,7 +3,7 @@
 use bemodel::Model;
 use serde_json::json;
 
-use crate::convert::{convert_bdl_fast, convert_ctehexml_fast, project_texts, real_project_files, Conv};
+use crate::convert::{convert_ctehexml_fast, project_texts, real_project_files, Conv};
 use crate::core::{Case, Obs, Property, Tier};
 use crate::gen::bdl::{gen_building, oddify_names, print_blocks, BuildCfg, Layout};
 use crate::oracle::bdlread::{bdl_span, read_blocks, RBlock};
@@ -29,7 +29,7 @@ impl C02 {
     /// conversion outcome of a text; records violations; returns the class
     fn outcome(&self, is_xml: bool, text: &str, origin: &str, what: &str, obs: &mut Obs) -> &'static str {
         obs.eval();
-        let r = if is_xml { convert_ctehexml_fast(text) } else { convert_bdl_fast(text) };
+        let r = crate::convert::convert_text_routed(is_xml, text);
         match r {
             Conv::Err(_) => "rejected",
             Conv::Panic(p) => {
